@@ -17,3 +17,4 @@ open Biogo.Properties.C05
 #print axioms revcomp_spec_alignment
 #print axioms revcomp_involutive_alignment
 #print axioms reverse_involutive_alignment
+#print axioms clone_deep_alignment
